@@ -388,7 +388,7 @@ func compressBounds(prop string) func(string) []string {
 }
 
 var compressOutside = []string{
-	"sources longer than the bound (in particular > 64 KiB: 16-bit table positions, window limit 65535, multi-byte length codes beyond 15+255)",
+	"sources longer than the bound (in particular > 64 KiB other than the concrete window and long-literal-run families: 16-bit table positions, window limit 65535, multi-byte length codes)",
 	"HC depths other than the listed ones",
 	"ARM assembly decoders",
 }
